@@ -572,6 +572,10 @@ def gen_movie(rng, regime):
             minmass = (nmask * level + 30) if noise_kind != "none" else rng.choice([0, 30, 100])
     else:
         minmass = rng.choice([0, 0, 50, 200, 600])
+        if noise_kind in ("uniform", "salt") and level > 10:
+            # strong noise with no mass cut turns every noise maximum into a feature: hundreds of
+            # features in one sub-net, minutes of branch and bound and nothing learnt
+            minmass = max(minmass, nmask * level)
     n = rng.randint(1, 6)
     blobs = []
     if regime == "sep":
@@ -698,7 +702,29 @@ def gen_call(rng, dim=2):
         pix = [int(v) for v in np.floor(arr).ravel()]
     npos = rng.choice([1, 1, 2, 3])
     pos = [[rng.randint(0, s - 1) for s in shape] for _ in range(npos)]
-    if npos > 1 and rng.random() < 0.6:
+    pair = None
+    if dim == 3 and rng.random() < 0.4:
+        # two maxima of different brightness a little MORE than the separation apart, off the axes
+        # (legal neighbours; a relocation box that pokes outside the separation ellipsoid along the
+        # diagonals would let the brighter one hide the other)
+        sepv = float(par["sep"][0])
+        offs = [(a, b, c) for a in range(-6, 7) for b in range(-6, 7) for c in range(-6, 7)
+                if sepv * sepv < a * a + b * b + c * c <= 1.5 * sepv * sepv and min(abs(a), abs(b), abs(c)) >= 1]
+        c0 = [rng.randint(2, sh - 3) for sh in shape]
+        rng.shuffle(offs)
+        offs.sort(key=lambda o: max(abs(v) for v in o))     # the most diagonal ones first
+        for o in offs:
+            c1 = [c0[i] + o[i] for i in range(3)]
+            if all(1 <= c1[i] < shape[i] - 1 for i in range(3)):
+                pair = (c0, c1)
+                break
+        if pair:
+            arr3 = np.array(pix, dtype=np.int64).reshape(shape)
+            arr3[tuple(pair[0])] = rng.choice([40, 90, 200])
+            arr3[tuple(pair[1])] = int(arr3[tuple(pair[0])]) - rng.choice([1, 5, 20])
+            pix = [int(v) for v in arr3.ravel()]
+            pos = [list(pair[0]), list(pair[1])]
+    if npos > 1 and pair is None and rng.random() < 0.6:
         for p in pos[1:]:
             for i in range(len(shape)):
                 p[i] = min(shape[i] - 1, max(0, pos[0][i] + rng.randint(-6, 6)))
@@ -711,17 +737,17 @@ def gen_call(rng, dim=2):
 def gen_cases(ctx):
     for inp in ctx.corpus():
         yield inp
-    nm = ctx.n(200, 3000)
+    nm = ctx.n(700, 5000)
     for i in range(nm):
         rng = ctx.rng("movie", i)
         regime = "sep" if rng.random() < 0.5 else "adv"
         inp = gen_movie(rng, regime)
         if inp is not None:
             yield inp
-    nc = ctx.n(500, 8000)
+    nc = ctx.n(1200, 12000)
     for i in range(nc):
         rng = ctx.rng("call", i)
-        yield gen_call(rng, dim=3 if rng.random() < 0.12 else 2)
+        yield gen_call(rng, dim=3 if rng.random() < 0.25 else 2)
 
 
 # ------------------------------------------------------------------------------------------
